@@ -18,12 +18,19 @@ def _is(n: ast.AST, names: set[str]) -> bool:
     return isinstance(n, ast.Name) and n.id in names
 
 
+def _truth(n: ast.AST, names: set[str]) -> bool:
+    """the parameter read as a truth value, possibly negated"""
+    while isinstance(n, ast.UnaryOp) and isinstance(n.op, ast.Not):
+        n = n.operand
+    return _is(n, names)
+
+
 def sites(f: FuncInfo, names: set[str]) -> list[tuple[ast.AST, str]]:
     out = []
     for n in walk_no_nested(f.node):
-        if isinstance(n, ast.BoolOp) and any(_is(v, names) for v in n.values[:-1] if isinstance(n.op, ast.Or)):
+        if isinstance(n, ast.BoolOp) and any(_truth(v, names) for v in n.values[:-1] if isinstance(n.op, ast.Or)):
             out.append((n, "or"))
-        elif isinstance(n, ast.BoolOp) and isinstance(n.op, ast.And) and any(_is(v, names) for v in n.values):
+        elif isinstance(n, ast.BoolOp) and isinstance(n.op, ast.And) and any(_truth(v, names) for v in n.values):
             out.append((n, "and"))
         elif isinstance(n, (ast.If, ast.While, ast.IfExp)):
             t = n.test
